@@ -9,7 +9,11 @@ from harness.runner import BCheck
 from scenario import phasing as PH, vcf as V
 
 LEVEL = "exploration"
-LEVEL_TEXT = ("Deductive part (vcgen/z3, all inputs): PhasedBlock.add keeps leftmost/rightmost = min/max of the added variants and span() = rightmost - leftmost; PhasedBlock.split returns two new well-formed blocks holding exactly the variants left of split_left / right of split_right with their phases and leaves the block itself untouched; PhasingStats.__iadd__/add_* add the counters and concatenate the block lists (the ALL row is the sum) (contracts/stats_py.py). "
+LEVEL_TEXT = ("Deductive part (vcgen/z3, all inputs): a LOOP-BODY contract for the classification pass of get_phase_blocks (the loop verified as a unit, GTF output off): every call is "
+              "counted as a variant; a call with a missing or homozygous genotype is nothing more; a heterozygous call is counted as heterozygous (and as a heterozygous SNV if it "
+              "is one) and is then either counted UNPHASED or entered into exactly the block named by its phase's block_id - the blocks are well-formed, pairwise distinct "
+              "objects and hold nothing but those calls (ghost counting functions over the three input lists; defaultdict(PhasedBlock) creates an empty block for a new id); "
+              "PhasedBlock.add keeps leftmost/rightmost = min/max of the added variants and span() = rightmost - leftmost; PhasedBlock.split returns two new well-formed blocks holding exactly the variants left of split_left / right of split_right with their phases and leaves the block itself untouched; PhasingStats.__iadd__/add_* add the counters and concatenate the block lists (the ALL row is the sum); write_to_block_list appends exactly one line per phase set, in increasing order of the set's id, stating the 1-based positions of the block's leftmost and rightmost variant (the true extremes by PhasedBlock.add's invariant) and its size (contracts/stats_py.py). "
               "Bounded stand-in: the real run_stats on generated VCFs (phased/unphased/homozygous/missing/partial calls, interleaved and nested phase sets, several "
               "chromosomes and samples, PS and HP, ploidy 2 and 3, --only-snvs, --chromosome selections in any order, --sample) against an independent counter over the "
               "file text: variants, heterozygous (SNVs), phased, unphased, singletons, blocks, the two sum identities, block list with true extents, non-overlapping "
